@@ -248,6 +248,8 @@ func (x *verFn) stmt(s ast.Stmt, k verK, loop *verLoop) string {
 		return wrapActs([]int{x.effects.id(x.canon(v.X))}, k())
 	case *ast.IncDecStmt:
 		return wrapActs([]int{x.effects.id(x.canon(v.X) + v.Tok.String())}, k())
+	case *ast.DeferStmt:
+		return wrapActs([]int{x.effects.id("defer " + x.canon(v.Call))}, k())
 	case *ast.BlockStmt:
 		return x.block(v.List, k, loop)
 	case *ast.IfStmt:
@@ -426,6 +428,8 @@ func genVersion1(repo string) string {
 	verBody(&b, ver, "Engine", "SetLifecycleHeaders", "setLifecycleHeaders")
 	verBody(&b, router, "Router", "processVersioning", "processVersioning")
 	verBody(&b, router, "Router", "selectRoutingTree", "selectRoutingTree")
+	verBody(&b, router, "Router", "serveVersionedRequest", "serveVersionedRequest")
+	verBody(&b, router, "Router", "serveVersionedHandlers", "serveVersionedHandlers")
 	b.WriteString("end Rivaas.Gen.Version\n")
 	return b.String()
 }
